@@ -6,11 +6,17 @@ import common, plotds
 from plotds import DS, NAN, tok_out, label
 
 PROP = 'C18'
-LEAN_MODULES = ['XyzProofs.Props.C18']
+LEAN_MODULES = ['XyzProofs.Props.C18', 'XyzProofs.Refine.Infini', 'XyzProofs.Props.C18Src']
 THEOREMS = ['Infini.c18_each_slice_once', 'Infini.c18_panel', 'Infini.c18_data', 'Infini.c18_style_function',
             'Infini.c18_style_injective', 'Infini.c18_hist_counts', 'Infini.c18_hist_total', 'Infini.c18_heatmap_cells',
-            'Infini.c18_pure']
-ANCHORS = ['markersDefault', 'linestylesDefault', 'infMaskBothNotNull']
+            'Infini.c18_pure',
+            # the same, stated on the functions translated from infiniplot.py (harness/anchors_infini.py)
+            'Infini.infInitMapped_spec', 'Infini.initMappedDim_refines', 'Infini.choices_refines', 'Infini.lineIdx_panel',
+            'Infini.lineIdx_style', 'Infini.lineIdx_hue', 'Infini.propIdx_refines', 'Infini.histCall_refines',
+            'Infini.c18_init_order_src', 'Infini.c18_each_slice_once_src', 'Infini.c18_panel_src', 'Infini.c18_style_src',
+            'Infini.c18_hist_src']
+ANCHORS = ['markersDefault', 'linestylesDefault', 'infMaskBothNotNull',
+           'infInitMapped', 'infIter', 'infRanges', 'infLineIdx', 'infHistCall']
 RULE = ("each case = (explicit dataset with 2-5 dims of size 1-4, numeric/str coordinates, one variable with shuffled "
         "dimension order, cells = distinct dyadic floats / NaN incl. all-NaN coordinates and all-NaN lines; an injective "
         "assignment of up to 4 dimensions (single or fused pairs, optionally with an explicit order / sub-selection) to "
